@@ -25,15 +25,16 @@ type brokerPublishQOS2Transaction struct {
 func newBrokerPublishQOS2Transaction(client *Client, msgID uint16) *brokerPublishQOS2Transaction {
 	tLog := client.log.WithTag(fmt.Sprintf("PUBLISH2b(%d)", msgID))
 	tLog.Debug("Created.")
-	return &brokerPublishQOS2Transaction{
-		TransactionBase: transactions.NewTransactionBase(
-			func() {
-				client.transactions.Delete(msgID)
-				tLog.Debug("Deleted.")
-			},
-		),
+	t := &brokerPublishQOS2Transaction{
 		client: client,
 	}
+	t.TransactionBase = transactions.NewTransactionBase(
+		func() {
+			client.brokerTransactions.DeleteTransaction(msgID, t)
+			tLog.Debug("Deleted.")
+		},
+	)
+	return t
 }
 
 func (t *brokerPublishQOS2Transaction) Publish(publish *pkts1.Publish) error {
